@@ -1,5 +1,5 @@
 From Coq Require Extraction ExtrOcamlBasic.
-From SK Require Import Base.Prelude Base.F64 Spec.Bins Store.Any Stat.Summary Sketch.Sketch Wire.Wire Wire.Grammar Data.Dataset Extract.Instances.
+From SK Require Import Base.Prelude Base.F64 Spec.Bins Store.Any Stat.Summary Sketch.Sketch Wire.Wire Wire.Grammar Data.Dataset Mapping.Glue Extract.Instances.
 From SK Require Import Codec.Codec.
 From SK Require Codec.Varfloat.
 Extraction Language OCaml.
@@ -17,4 +17,5 @@ Extraction "model.ml"
   (* sketch *) sk_new xk_add sk_count sk_is_empty xk_quantile sk_max sk_min sk_foreach sk_merge sk_clear sk_copy sk_reweight
               plain_is_empty plain_count map_equals within_tolerance
   (* wire *) xk_enc xk_dec_into ds_of_sketch ds_fresh sketch_of_ds enc_mapping dec_mapping
+  (* mappings *) with_gamma with_accuracy gm_index gm_lower gm_value gm_accuracy
   (* dataset *) d_new d_add d_merge xd_lower xd_upper xd_min xd_max d_sum_exact.
